@@ -2,6 +2,7 @@ package typechecker
 
 import (
 	"fmt"
+	"maps"
 	"slices"
 
 	"github.com/DDP-Projekt/Kompilierer/src/ast"
@@ -633,7 +634,9 @@ func (t *Typechecker) VisitGrouping(expr *ast.Grouping) ast.VisitResult {
 func (t *Typechecker) VisitFuncCall(callExpr *ast.FuncCall) ast.VisitResult {
 	decl := callExpr.Func
 
-	for k, expr := range callExpr.Args {
+	// iterate in a fixed order, so that the reported errors do not depend on the map order
+	for _, k := range slices.Sorted(maps.Keys(callExpr.Args)) {
+		expr := callExpr.Args[k]
 		argType := t.Evaluate(expr)
 
 		var paramType ddptypes.ParameterType
@@ -669,7 +672,9 @@ func (t *Typechecker) VisitFuncCall(callExpr *ast.FuncCall) ast.VisitResult {
 }
 
 func (t *Typechecker) VisitStructLiteral(expr *ast.StructLiteral) ast.VisitResult {
-	for argName, arg := range expr.Args {
+	// iterate in a fixed order, so that the reported errors do not depend on the map order
+	for _, argName := range slices.Sorted(maps.Keys(expr.Args)) {
+		arg := expr.Args[argName]
 		argType := t.Evaluate(arg)
 
 		var paramType ddptypes.Type
